@@ -13,7 +13,13 @@
   Every theorem is for ALL experiments / payload keyword sets / platforms / jobs / argument lists, or
   for ALL histories (lists of operations) of the session machine `step`.
 
-  Extension (last three sections): the circuit of a request as a MATRIX (`Model/C16Mat.lean`: component lists as
+  Extension round 5 (the two sections before the last): one level down the network stack — the HTTP requests the
+  real `RPCHandler` emits (`Model/C16Rpc.lean`: `rstep` = `step` + handler + emitted requests, transport as a
+  parameter) — and `add` with list / dict / port-name mappings, on herald modes and next to a post-selection,
+  `clear_input_and_circuit`, `set_parameters`, `thresholded_output` (`Model/C16Add.lean`: `astep` = `cstep` + ports +
+  condition mode sets, user-level reading with routings as functions on modes).
+
+  Extension (three sections before those): the circuit of a request as a MATRIX (`Model/C16Mat.lean`: component lists as
   the code builds them, `cstep` = `step` + components, theorems for all histories and all environments), an input
   state left behind by a later `add_herald` (decided to be outside the statement, characterised exactly), and the
   objects a job's request shares with the processor and the sampler (`Model/C16Heap.lean`: `hstep true` = the pinned
@@ -24,6 +30,7 @@ import PercevalModel.Lemmas.C16More
 import PercevalModel.Lemmas.C16Mat
 import PercevalModel.Lemmas.C16Heap
 import PercevalModel.Lemmas.C16Rpc
+import PercevalModel.Lemmas.C16Add
 
 namespace PM.C16
 open PM.SM
@@ -1756,6 +1763,203 @@ theorem create_job_returns_iff_200_with_job_id (wire : Wire) (id : Text) :
 example : (Wire.answer 201 (.obj (some ['j']) none)).net = .lost ∧ (Wire.answer 200 .notJson).net = .lost ∧
     (Wire.answer 500 .notJson).net = .down ∧ Wire.readTimeout.net = .lost ∧ Wire.connectTimeout.net = .down := by decide
 
+/-! ## `add` with list / dict / port-name mappings, on herald modes, next to a post-selection;
+`clear_input_and_circuit`; `set_parameters`, `thresholded_output` (`Model/C16Add.lean`)
+
+`astep` is the machine with components plus the processor's named ports, the mode sets of its post-selection's
+conditions and the platform's detector spec; `asstep` runs it next to the user-level reading `ASpec` (a `Spec`, then
+segments: elementary components at absolute positions, and ROUTINGS given as functions on modes). -/
+
+section AddMat
+variable {R : Type} [CommRing R] [StarRing R]
+
+/-- **payload_matrix_is_user_matrix_with_mappings.**  Over EVERY history of calls of `astep` from the initial state —
+everything `payload_matrix_is_user_matrix` covers, and `add` with an int offset, a list or a dictionary (int keys or
+output port names) on any modes, also next to a post-selection and on a converted processor, `add_port`,
+`set_postselection`, `set_parameters`, `thresholded_output`, `clear_input_and_circuit` followed by a new circuit on
+the same processor, accepted or refused, in any order — and for every environment `ρ`: the matrix of the component
+list the processor holds (what `serialize(linear_circuit())` sends) IS the matrix the user means: the local
+processor's matrix relabelled / the circuit given to `set_circuit`, then, for every successful `add`, "the light of
+processor mode `k` goes to the component's input `v` for every `k: v` of the mapping, the other modes of the span
+behind it in order" (`routeFn`, a function on modes defined from the user's mapping) followed by the component's
+elementary components on the first modes of the span. -/
+theorem payload_matrix_is_user_matrix_with_mappings (ρ : Env R) (pf : Platform) (thrOnly : Bool) (ops : List AOp)
+    (N : Nat) (hN : (exec asstep (asinit pf thrOnly) ops).1.cw.w.size = some N) :
+    circMat ρ N (exec asstep (asinit pf thrOnly) ops).1.cw.comps = (exec asstep (asinit pf thrOnly) ops).2.mat ρ N :=
+  (inv_exec asstep (AInv ρ) (fun st op h => asstep_ainv ρ st op h) (asinit pf thrOnly)
+    ⟨fun N hN => by simp [asinit, AWorld.init, CWorld.init, World.init, World.size] at hN,
+     fun h0 => by simp [asinit, AWorld.init, CWorld.init, World.init, World.size] at h0⟩ ops).1 N hN
+
+/-- **the_perm_is_the_users_routing.**  For every mapping `add` has accepted on a processor of `N` modes: the `PERM`
+the code puts on the span (vector computed by `generate_permutation`) denotes exactly the permutation "mode `k` to
+the component's input `v`", given as a function on modes. -/
+theorem the_perm_is_the_users_routing (aw : AWorld) (e : Exp) (mp : Mapping) (c : UC) (nm : NMap)
+    (h : resolveAdd aw e mp c = .ok nm) (hm : c.m ≠ 0) :
+    (Comp.perm (minL (nm.map (·.1))) (permVect nm)).mat (R := R) (fun _ k => (1 : Matrix (Fin k) (Fin k) R)) e.size =
+      permMatF (routeFn e.size nm) := by
+  have hr := resolveAdd_resolved aw e mp c nm h
+  rw [perm_comp_mat]
+  exact perm_mat_eq_route e.size nm hr.perm (span_fits aw e c nm hr hm).1
+
+end AddMat
+
+/-- a processor of 4 modes with a herald on mode 1, `add([0, 3], <2-mode circuit>)`: the span is 0 … 3 -/
+def spanWitness : AWorld :=
+  (exec astep (AWorld.init ⟨none, none, none, none, ["probs"]⟩ false)
+    [.base (.newRemote false ⟨4, [], 0, []⟩ none), .base (.plain (.addHerald 1 1))])
+
+/-- non-vacuity, and what the code does with the modes BETWEEN the keys: mode 0 goes to input 0, mode 3 to input 1
+(position 1), and the herald mode 1 and mode 2 are pushed behind, to positions 2 and 3 — with no PERM back (the code
+as it is; what that does to the herald is C10's subject) -/
+example : (astep spanWitness (.addMapped (.list [0, 3]) ⟨2, [(0, ⟨7, 2⟩)], 1, []⟩)).2 = .done ∧
+    (astep spanWitness (.addMapped (.list [0, 3]) ⟨2, [(0, ⟨7, 2⟩)], 1, []⟩)).1.cw.comps =
+      [.sub 0 ⟨4, [], 0, []⟩, .perm 0 [0, 2, 3, 1], .sub 0 ⟨2, [(0, ⟨7, 2⟩)], 1, []⟩] := by decide
+
+/-- **mapped_add_is_checked.**  Whenever `add(mapping, circuit)` succeeds on a processor `e` (after the first-add
+sizing of an empty processor), for ANY mapping form: the resolved mapping has exactly one entry per component mode,
+its keys are distinct modes INSIDE the circuit none of which is a HERALD mode, its values are distinct, every
+condition of the processor's post-selection contains all the keys or none, the completed vector is a permutation
+(`PERM.__init__` does not refuse it); the component list grows by exactly `PERM` (unless the identity) and the
+component on the first modes of the span; heralds, input state, post-selection, noise, filter, parameters are
+untouched and the circuit symbol is the new one. -/
+theorem mapped_add_is_checked (aw aw' : AWorld) (mp : Mapping) (c : UC) (e0 : Exp) (he : aw.cw.w.exp = some e0)
+    (hz : e0.size ≠ 0) (h : astep aw (.addMapped mp c) = (aw', .done)) :
+    ∃ nm, resolveAdd aw e0 mp c = .ok nm ∧ Resolved aw e0 c nm ∧
+      aw'.cw.comps = aw.cw.comps ++ mappedComps nm c ∧
+      aw'.cw.w.exp = some (addComponent e0 c.sym c.cparams) ∧ aw'.ports = aw.ports ∧ aw'.psc = aw.psc := by
+  simp only [astep, he, if_neg hz] at h
+  split at h
+  · cases h
+  · cases hra : resolveAdd aw e0 mp c with
+    | error err => rw [hra] at h; cases h
+    | ok nm =>
+      rw [hra] at h
+      simp only [Prod.mk.injEq, and_true] at h
+      subst h
+      exact ⟨nm, rfl, resolveAdd_resolved aw e0 mp c nm hra, rfl, rfl, rfl, rfl⟩
+
+/-- **mapped_add_sends_each_key_to_its_input.**  … and for every `k: v` of the resolved mapping the routing sends
+processor mode `k` to position `min + v` — input `v` of the component, which sits on `min …` — inside the circuit:
+light leaving mode `k` enters the component where the user said (`permMatF_mulVec_single`). -/
+theorem mapped_add_sends_each_key_to_its_input (aw : AWorld) (e : Exp) (mp : Mapping) (c : UC) (nm : NMap)
+    (h : resolveAdd aw e mp c = .ok nm) (hm : c.m ≠ 0) (k v : Nat) (hkv : (k, v) ∈ nm) :
+    ∃ (hk : k < e.size) (hv : minL (nm.map (·.1)) + v < e.size),
+      routeFn e.size nm ⟨k, hk⟩ = ⟨minL (nm.map (·.1)) + v, hv⟩ :=
+  route_key aw e c nm (resolveAdd_resolved aw e mp c nm h) hm k v hkv
+
+/-- **add_on_a_herald_mode_is_refused.**  Whatever the form of the mapping: if it resolves (one entry per component
+mode) and ONE of its keys is a herald mode, negative or outside the circuit, `add` raises
+`UnavailableModeException` — before the post-selection is looked at and before anything is appended. -/
+theorem add_on_a_herald_mode_is_refused (aw : AWorld) (e : Exp) (mp : Mapping) (c : UC) (m : IMap)
+    (hraw : resolveRaw (portNames e.size aw.ports) c.m mp = .ok m) (hlen : m.length = c.m) (kv : Int × Int)
+    (hk : kv ∈ m) (hbad : kv.1 < 0 ∨ e.size ≤ kv.1.toNat ∨ kv.1.toNat ∈ heraldModes e) :
+    resolveAdd aw e mp c = .error .unavailable := by
+  have hnc : connectible e kv.1 = false := by
+    cases hc : connectible e kv.1 with
+    | false => rfl
+    | true =>
+      obtain ⟨h1, h2, h3⟩ := connectible_iff e kv.1 hc
+      rcases hbad with hb | hb | hb
+      · omega
+      · omega
+      · exact absurd hb h3
+  have hall : (m.all fun kv => connectible e kv.1) ≠ true := by
+    intro hall
+    rw [List.all_eq_true] at hall
+    have := hall kv hk
+    rw [hnc] at this; cases this
+  simp only [resolveAdd, hraw, checkConsistency, hlen, if_true, hall]
+  rfl
+
+/-- the herald of `spanWitness` (mode 1) as a key: refused, for a list and for a dictionary -/
+example : (astep spanWitness (.addMapped (.list [1, 2]) ⟨2, [], 1, []⟩)).2 = .err .unavailable ∧
+    (astep spanWitness (.addMapped (.dict [(.mode 2, .mode 1), (.mode 1, .mode 0)]) ⟨2, [], 1, []⟩)).2 =
+      .err .unavailable ∧
+    (astep spanWitness (.addMapped (.offset 3) ⟨2, [], 1, []⟩)).2 = .err .unavailable := by decide
+
+/-- a post-selection `[0,1]==1`: a component on modes 1, 2 would split the condition — `AssertionError`; on 0, 1
+(in either order) it is accepted; a port name resolves to its modes -/
+example :
+    let aw := exec astep (AWorld.init ⟨none, none, none, none, ["probs"]⟩ false)
+      [.base (.newRemote false ⟨4, [], 0, []⟩ none), .post 0 [[0, 1]], .addPort 2 "q" 2]
+    (astep aw (.addMapped (.offset 1) ⟨2, [], 1, []⟩)).2 = .err .assertion ∧
+    (astep aw (.addMapped (.list [1, 0]) ⟨2, [], 1, []⟩)).2 = .done ∧
+    (astep aw (.addMapped (.dict [(.port "q", .modes [1, 0])]) ⟨2, [], 1, []⟩)).1.cw.comps =
+      [.sub 0 ⟨4, [], 0, []⟩, .perm 2 [1, 0], .sub 2 ⟨2, [], 1, []⟩] ∧
+    (astep aw (.addMapped (.dict [(.port "zz", .modes [1, 0])]) ⟨2, [], 1, []⟩)).2 = .err .invalidMapping := by
+  decide
+
+/-- **astep_is_cstep_where_it_delegates.**  Every call `astep` does not treat itself (`AOp.delegate`) IS the call of
+the machine with components — same components, same session state, same output — so every theorem about `cstep` /
+`step` (payload contents, constraints, clamp, one request per execution, …) holds of those calls of `astep`. -/
+theorem astep_is_cstep_where_it_delegates (aw : AWorld) (op : AOp) (cop : COp) (h : op.delegate aw = some cop) :
+    (astep aw op).1.cw = (cstep aw.cw cop).1 ∧ (astep aw op).2 = (cstep aw.cw cop).2 :=
+  astep_delegate aw op cop h
+
+/-- **clear_keeps_noise_filter_parameters.**  `clear_input_and_circuit(new_m)` on a processor: components, heralds,
+ports, post-selection, input state are gone and the processor has `new_m` modes (0 when not given, or when the `m`
+setter refuses `new_m < 1` with `ValueError` — AFTER the reset); the noise model, the photon filter and the
+`_parameters` dictionary are the ones the processor had: the next request of this processor carries them with the
+new circuit. -/
+theorem clear_keeps_noise_filter_parameters (aw : AWorld) (e : Exp) (newM : Option Int) (sym : Nat)
+    (he : aw.cw.w.exp = some e) :
+    ∃ e', (astep aw (.clearAll newM sym)).1.cw.w.exp = some e' ∧
+      e'.noise = e.noise ∧ e'.filter = e.filter ∧ e'.params = e.params ∧
+      e'.heralds = [] ∧ e'.input = none ∧ e'.post = none ∧ e'.m = e'.size ∧
+      e'.size = (match newM with | some i => if i < 1 then 0 else i.toNat | none => 0) ∧
+      (astep aw (.clearAll newM sym)).1.cw.comps = [] ∧ (astep aw (.clearAll newM sym)).1.ports = [] ∧
+      (astep aw (.clearAll newM sym)).1.psc = none ∧
+      (astep aw (.clearAll newM sym)).2 = (match newM with | some i => if i < 1 then .err .value else .done | none => .done) := by
+  simp only [astep, he]
+  cases newM with
+  | none => exact ⟨_, rfl, rfl, rfl, rfl, rfl, rfl, rfl, rfl, rfl, rfl, rfl, rfl, rfl⟩
+  | some i =>
+    simp only
+    by_cases hi : i < 1
+    · rw [if_pos hi, if_pos hi, if_pos hi]; exact ⟨_, rfl, rfl, rfl, rfl, rfl, rfl, rfl, rfl, rfl, rfl, rfl, rfl, rfl⟩
+    · rw [if_neg hi, if_neg hi, if_neg hi]; exact ⟨_, rfl, rfl, rfl, rfl, rfl, rfl, rfl, rfl, rfl, rfl, rfl, rfl, rfl⟩
+
+/-- … and the first `add` / `set_circuit` afterwards decides the size: `clear_input_and_circuit()`, then
+`add(1, <2-mode circuit>)` gives a processor of 3 modes whose request carries the filter and the parameter set before -/
+example :
+    let aw := exec astep (AWorld.init ⟨none, none, none, none, ["probs"]⟩ false)
+      [.base (.newRemote false ⟨4, [], 0, []⟩ none), .base (.plain (.setFilter (some 1))), .thresholded true,
+       .clearAll none 1, .addMapped (.offset 1) ⟨2, [], 2, []⟩]
+    aw.cw.w.exp.map (fun e => (e.size, e.filter, dget e.params "thresholded")) = some (3, some 1, some (.bool true)) ∧
+    aw.cw.comps = [.sub 1 ⟨2, [], 2, []⟩] := by decide
+
+/-- **set_parameters_writes_until_a_bad_key.**  `set_parameters(d)` is `set_parameter` key by key in dictionary
+order; at the first key that is not a string it raises `TypeError`, the earlier keys written and the later ones not. -/
+theorem set_parameters_writes_until_a_bad_key (e : Exp) (a : List (String × PV)) (v : PV)
+    (rest : List (Option String × PV)) :
+    setParams e (a.map (fun kv => (some kv.1, kv.2))) = (a.foldl (fun e kv => setParam e kv.1 kv.2) e, none) ∧
+    setParams e (a.map (fun kv => (some kv.1, kv.2)) ++ (none, v) :: rest) =
+      (a.foldl (fun e kv => setParam e kv.1 kv.2) e, some .type) := by
+  induction a generalizing e with
+  | nil => exact ⟨rfl, rfl⟩
+  | cons kv t ih => simp only [List.map_cons, List.cons_append, setParams, List.foldl_cons]; exact ih _
+
+/-- **thresholded_reaches_the_request.**  After `thresholded_output(v)` has succeeded, `_parameters['thresholded']`
+is `v` (a Python bool), and every payload the processor then produces — as long as no call rewrites that key —
+carries it in its `parameters` field; `thresholded_output(False)` is refused on a platform whose specs say
+`detector: threshold`, the dictionary untouched. -/
+theorem thresholded_reaches_the_request (aw : AWorld) (e : Exp) (v : Bool) (he : aw.cw.w.exp = some e) :
+    (v = false ∧ aw.thrOnly = true → astep aw (.thresholded v) = (aw, .err .assertion)) ∧
+    (¬ (v = false ∧ aw.thrOnly = true) →
+      ∃ e', (astep aw (.thresholded v)).1.cw.w.exp = some e' ∧ (astep aw (.thresholded v)).2 = .done ∧
+        dget e'.params "thresholded" = some (.bool v) ∧
+        ∀ pf cmd cl il kw e'' pl, preparePayload pf e' cmd cl il kw = (e'', .ok pl) →
+          ∃ d, dget pl "parameters" = some (.params d) ∧ dget d "thresholded" = some (.bool v)) := by
+  refine ⟨fun hc => by simp only [astep, he, if_pos hc], fun hc => ?_⟩
+  refine ⟨setParam e "thresholded" (.bool v), by simp only [astep, he, if_neg hc]; rfl,
+    by simp only [astep, he, if_neg hc], dget_dset_self _ _ _, ?_⟩
+  intro pf cmd cl il kw e'' pl hp
+  obtain ⟨-, -, -, -, rfl⟩ := preparePayload_ok pf _ cmd cl il kw e'' pl hp
+  have hne : (syncFilterParam (setParam e "thresholded" (.bool v))).params ≠ [] := dset_ne_nil _ _ _
+  refine ⟨_, by rw [fields_parameters, if_pos hne], ?_⟩
+  show dget (dset (dset e.params "thresholded" (.bool v)) "min_detected_photons" _) "thresholded" = _
+  rw [dget_dset_ne _ _ _ _ (by decide), dget_dset_self]
+
 /-! ## what is still NOT proved (validated by the correspondence only)
 
 * the matrix reading (`payload_matrix_is_user_matrix`) takes the OWN matrix of every elementary component from the
@@ -1763,9 +1967,16 @@ example : (Wire.answer 201 (.obj (some ['j']) none)).net = .lost ∧ (Wire.answe
   multiplies its components: C01's), takes a converted local processor's component list as given (how a local
   processor composes catalog gates: C10's subject) and ignores `simplify()`, which rewrites the PERMs the
   conversion inserts (assumed to keep the matrix; the correspondence compares the matrix actually sent).
-  `add` is modelled for an int offset on herald-free modes of a processor without post-selection; list / dict
-  mappings (a PERM before the component, none after) are C10's.  The relabelled post-selection symbol is still a
-  symbol.  "Deserialising yields the same objects" relies on the real decoders (C15).
+  `add` of a circuit is now modelled for every mapping form (`Model/C16Add.lean`); `add` of a PROCESSOR onto a
+  remote processor other than the conversion (`add(0, p)` on an empty one), `keep_port=False`, the transfer of the
+  local processor's ports by the conversion and herald port names as mapping keys stay C10's.  What the leftover
+  routing of a mapped `add` does to heralds / post-selection conditions on modes strictly inside the span is not
+  judged (the code as it is).  The relabelled post-selection symbol is still a symbol (its condition mode sets are
+  known to `astep` only for `can_compose_with`).  "Deserialising yields the same objects" relies on the real
+  decoders (C15).
+* the HTTP layer (`Model/C16Rpc.lean`) stops at the request `requests` is asked to send: redirects, environment
+  proxies / netrc, TLS, and what the platform does with the document are outside; `execute_sync` / `__call__` are
+  modelled up to the creation request (the status / result GETs that follow are not in the model).
 * `n_user + n_heralds = n(transmitted state)` for a stored input that a LATER `add_herald` left behind: false in
   general; `window_enforced_up_to_herald_mismatch` states exactly what is enforced then.  Decided to be outside
   the statement (see the section above).
